@@ -189,10 +189,8 @@ def run_case(h, R, line, idx):
                     if not x:
                         break
                     st['tls'] += x
-                # what the client's TLS stack has to say on its own (the answer to a post-handshake certificate request)
-                out = st['outb'].read()
-                if out:
-                    send(out)
+                # what the client's TLS stack has to say on its own (the answer to a post-handshake certificate request) stays in
+                # the outgoing BIO and travels in front of the next segment: sent at once it would race with the server's own progress
             elif st['hsraw'] is not None:
                 st['hsraw'] += data
                 st['inb'].write(data)
